@@ -20,9 +20,9 @@ RULE = ("Hypothesis: general graphs + adversarial mixes (IRI+bnode values with/w
         "rdflib Graph}.  Oracle: no exception / confirmed hang; result is text.  Non-trivial: the case has >=1 adversarial feature "
         "(labelled); distinct by SHA-1 of the case.")
 ASSUMPTIONS = ["generated documents are valid by construction (writers in vf/rdfmodel.py)", "a 30 s alarm + line-event bound decides non-termination"]
-BUDGET = {"quick": {"examples": 16000, "wall": 200}, "thorough": {"examples": 500000, "wall": 5400}}
+BUDGET = {"quick": {"examples": 16000, "wall": 200}, "thorough": {"examples": 200000, "wall": 900}}
 # coverage-guided supplement (vf/fuzz.py): libFuzzer runs per shard, 16 shards
-FUZZ = {"quick": {"runs": 1000, "wall": 120}, "thorough": {"runs": 20000, "wall": 3000}}
+FUZZ = {"quick": {"runs": 1000, "wall": 120}, "thorough": {"runs": 10000, "wall": 600}}
 FLOORS = {"nontrivial": 0.4, "fmt:Shacl": 0.15, "call:profile_graph": 0.05, "in:turtle_iter": 0.05}
 SURVEY = bool(os.environ.get("VF_C04_SURVEY"))
 
